@@ -118,6 +118,8 @@ impl GraphRunner for Graph {
         loop {
             let mut done = true;
             let mut all_idle = true;
+            #[cfg(rustradio_verif)]
+            crate::verif::emit("\"ev\":\"g_pass\"".to_string());
             if self.cancel_token.is_canceled() {
                 break;
             }
@@ -129,6 +131,8 @@ impl GraphRunner for Graph {
                 let st = Instant::now();
                 let st_cpu = get_cpu_time();
                 let ret = b.work()?;
+                #[cfg(rustradio_verif)]
+                crate::verif::emit(format!("\"ev\":\"g_work\",\"b\":{n},\"ret\":\"{ret:?}\""));
 
                 self.times[n] += st.elapsed();
                 self.cpu_times[n] += get_cpu_time() - st_cpu;
@@ -163,9 +167,13 @@ impl GraphRunner for Graph {
                     }
                 };
                 if eof[n] {
+                    #[cfg(rustradio_verif)]
+                    crate::verif::emit(format!("\"ev\":\"g_eof\",\"b\":{n}"));
                     info!("{} EOF, exiting", name);
                 }
             }
+            #[cfg(rustradio_verif)]
+            crate::verif::emit(format!("\"ev\":\"g_pass_end\",\"done\":{done},\"idle\":{all_idle}"));
             if done {
                 break;
             }
